@@ -427,16 +427,16 @@ def applyOp (s : St) (ws : List String) : St × String :=
       let bd := Board.setDo1 Board.new b
       (s, s!"{bd.ao1} {bd.fanRpm} {bd.fanPeriod.toNat}")
     | none => bad
-  | "compile" :: toks =>
+  | "compile" :: _ :: toks =>
     match Asm.parseProgram toks with
     | some p =>
       (s, match Asm.compile p with | .ok b => b.str | .error e => "panic:" ++ e.str)
     | none => (s, "bad-ast")
-  | "spec.encode" :: toks =>
+  | "spec.encode" :: _ :: toks =>
     match Asm.parseProgram toks with
     | some p => (s, match Asm.Ref.assemble p with | some b => b.str | none => "undefined-symbol")
     | none => (s, "bad-ast")
-  | "compileload" :: toks =>
+  | "compileload" :: _ :: toks =>
     match Asm.parseProgram toks with
     | some p => (s, match Asm.compileAndLoadable p with | .ok _ => "ok" | .error e => "panic:" ++ e.str)
     | none => (s, "bad-ast")
@@ -449,7 +449,7 @@ def applyOp (s : St) (ws : List String) : St × String :=
   | ["spec.reject", _] => (s, "reject")
   | ["spec.accept", _] => (s, "accepted")
   | ["spec.noparsepanic", _] => (s, "ok")
-  | "fmt" :: toks =>
+  | "fmt" :: _ :: toks =>
     match Asm.parseProgram toks with
     | some p => (s, Asm.hexOf (Fmt.program p))
     | none => (s, "bad-ast")
